@@ -20,7 +20,7 @@ Not decided (never asserted):
     residuals enter cov_residuals.
   * stored residuals on periods that were not fitted (NaN today) and in the presample (0 today); inf in the data.
   * interpret_span="long" (today identical to "short" because max_lag is not passed on), omit_missing=False on incomplete data.
-  * deviation=True simulations, resample(), get_acorr, get_stability / get_max_abs_eigenvalue, orientation of autocovariances of
+  * deviation=True simulations, resample(), get_acorr, orientation of autocovariances of
     order >= 1 (Gamma_i or its transpose, consistently, is accepted), get_mean when exogenous variables are present (their
     contribution is ignored by definition here), dof_correction when T_fit - k <= 0.
 
@@ -519,6 +519,26 @@ def _check_get_eigenvalues(c, model, b, per_variant):
         if not dist <= tol:
             c.violation("get_eigenvalues:not-companion-eigenvalues",
                         f"variant {v}: multiset distance {dist:.3e} > {tol:.1e} (n={n}, order={order})")
+            continue
+        # the reported summary of the eigenvalues: spectral radius of the companion form, and the stability flag derived from it
+        # (a dominant root that is negative or complex has a smaller REAL part than some other root)
+        try:
+            rad = float(np.max(np.abs(want))) if want.size else 0.0
+            got_rad = model.get_max_abs_eigenvalue(unpack_singleton=False)[v]
+            got_stab = model.get_stability(unpack_singleton=False)[v]
+        except Exception as exc:
+            c.inconc(f"get_max_abs_eigenvalue:raised:{type(exc).__name__}")
+            continue
+        dominant = "none"
+        if want.size:
+            z = want[int(np.argmax(np.abs(want)))]
+            dominant = "complex" if abs(z.imag) > 1e-9 else ("negative" if z.real < 0 else "positive")
+        c.event("get_eigenvalues", f"max-abs:{dominant}", key=("maxabs", dominant, n, order), nontrivial=dominant != "positive")
+        if got_rad is None or not abs(float(got_rad) - rad) <= tol + 1e-9 * (1 + rad):
+            c.violation("get_max_abs_eigenvalue:not-the-spectral-radius",
+                        f"variant {v}: get_max_abs_eigenvalue() = {got_rad!r}, max |eigenvalue of the companion matrix| = {rad!r} (dominant root {dominant})")
+        elif abs(rad - 1) > 1e-6 and bool(got_stab) != (rad < 1):
+            c.violation("get_stability:contradicts-the-spectral-radius", f"variant {v}: get_stability() = {got_stab!r} with spectral radius {rad!r}")
 
 
 def _check_get_acov(c, model, b, per_variant):
